@@ -122,6 +122,24 @@ def chain_family(tier):
     return out
 
 
+def cte_family(tier):
+    """WITH lists of two / three CTEs in different integrations (in every order, one defined from another) x outer queries that read one of
+    them, several, or one through a nested select: the answer is what the OUTER query denotes, whichever CTE was planned last"""
+    defs = {'c1': 'SELECT a, id FROM int1.t1', 'c2': 'SELECT c, id FROM int2.t2 WHERE c > 0', 'c3': 'SELECT d, id FROM int1.t3', 'c4': 'SELECT a FROM c1 WHERE a > 1'}
+    withs = [('c1', 'c2'), ('c2', 'c1'), ('c1', 'c2', 'c3'), ('c1', 'c4', 'c2')]
+    outers = ['SELECT * FROM c1', 'SELECT * FROM c2', 'SELECT a FROM c1 WHERE a > 0', 'SELECT * FROM (SELECT * FROM c1) AS s', 'SELECT count(*) AS n FROM c2',
+              'SELECT c1.a, c2.c FROM c1 JOIN c2 ON c1.id = c2.id', 'SELECT c2.c, c1.a FROM c2 LEFT JOIN c1 ON c1.id = c2.id', 'SELECT a FROM c1 UNION SELECT c FROM c2',
+              'SELECT a FROM c1 WHERE a IN (SELECT c FROM c2)', 'SELECT DISTINCT a FROM c1 ORDER BY a LIMIT 1']
+    if tier != 'quick':
+        outers += ['SELECT * FROM c4', 'SELECT * FROM c3', 'SELECT c FROM c2 EXCEPT SELECT a FROM c1', 'SELECT c1.a FROM c1 JOIN int2.t2 AS y ON y.id = c1.id']
+    out = []
+    for w in withs:
+        for o in outers:
+            if all(n in w for n in ('c1', 'c2', 'c3', 'c4') if n in o.replace(',', ' ').replace('.', ' ').split()):
+                out.append('WITH %s %s' % (', '.join('%s AS (%s)' % (n, defs[n]) for n in w), o))
+    return out
+
+
 def family(tier):
     out = []
     if tier == 'quick':
@@ -139,7 +157,7 @@ def family(tier):
         sqls.append(sql)
     # deterministic de-dup preserving order
     seen, res = set(), []
-    for s_ in sqls + EXTRA + atom_family(tier) + nested_family(tier) + on_family(tier) + setop_family(tier) + chain_family(tier):
+    for s_ in sqls + EXTRA + atom_family(tier) + nested_family(tier) + on_family(tier) + setop_family(tier) + chain_family(tier) + cte_family(tier):
         if s_ not in seen:
             seen.add(s_)
             res.append(s_)
